@@ -26,262 +26,162 @@ Section Arrays.
     (forall f g, (forall x, f x = g x) -> k f = k g) ->
     (do p <- lift (P e); k (E p)) = (do _u <- lift (chk e); k (fun x => ev e x)).
   Proof.
-    intros Hk. unfold chk, pe. destruct (P e) as [p|er| |]; simpl; try reflexivity.
-    destruct (k (E p)) as [t r] eqn:K1.
-    erewrite (Hk (fun x => do p0 <- lift (Ok p); E p0 x) (E p)).
-    - rewrite K1. reflexivity.
-    - intros x. apply bind_ret_l.
+    intros Hk. unfold chk, pe. destruct (P e) as [p|er| |]; try reflexivity.
+    unfold omap, obind. rewrite !bind_lift_ok. apply Hk. intros x. rewrite bind_lift_ok. reflexivity.
   Qed.
 
   Theorem map_is_spec d c e : map_ parsed P E d [c; e] = map_spec ev chk d c e.
   Proof.
-    unfold map_, map_spec. simpl idx. rewrite !bind_lift_ok.
+    unfold map_, map_spec. unfold idx; cbn [nth_error]; rewrite !bind_lift_ok.
     apply bind_ext. intros v. rewrite coll_same. apply bind_ext. intros xs.
     apply (parsed_once e (fun f => do rs <- mapM f xs; ret (Arr rs))).
     intros f g H. rewrite (mapM_ext f g) by exact H. reflexivity.
   Qed.
 
-  (** filter *)
-  Definition fstep (f : value -> M value) :=
-    fun (acc : M (list value)) (cur : value) =>
-      do filtered <- acc; do predicate <- f cur;
-      if truthy predicate then ret (filtered ++ [cur]) else ret filtered.
+  (** ** filter *)
+  Definition fstep (f : value -> M value) (filtered : list value) (cur : value) : M (list value) :=
+    do predicate <- f cur; if truthy predicate then ret (filtered ++ [cur]) else ret filtered.
 
-  Lemma ffold_stuck f xs t (o : outcome (list value)) :
-    stuck o -> fold_left (fstep f) xs (t, o) = (t, o).
+  Lemma ffold f xs acc :
+    foldlM (fstep f) xs acc =
+    (do ys <- filterM (fun x => do v <- f x; ret (truthy_spec v)) xs; ret (acc ++ ys)).
   Proof.
-    revert t o. induction xs as [|x r IH]; intros t o H; simpl; [reflexivity|].
-    destruct o; simpl in *; try contradiction; apply IH; exact I.
+    revert acc. induction xs as [|x r IH]; intros acc.
+    - cbn [foldlM filterM]. rewrite bind_ret_l, app_nil_r. reflexivity.
+    - cbn [foldlM filterM]. unfold fstep at 1. rewrite !bind_assoc. apply bind_ext. intros v.
+      rewrite bind_ret_l, bind_if, !bind_ret_l, truthy_eq.
+      destruct (truthy_spec v); rewrite IH, !bind_assoc; apply bind_ext; intros ys; rewrite bind_ret_l.
+      + rewrite <- app_assoc. reflexivity.
+      + reflexivity.
   Qed.
-
-  Lemma ffold f xs t acc :
-    fold_left (fstep f) xs (t, Ok acc) =
-    tapp t (do ys <- filterM (fun x => do v <- f x; ret (truthy_spec v)) xs; ret (acc ++ ys)).
-  Proof.
-    revert t acc. induction xs as [|x r IH]; intros t acc.
-    - simpl. unfold tapp; simpl. rewrite !app_nil_r. reflexivity.
-    - cbn [fold_left filterM]. unfold fstep at 2. rewrite bind_ok.
-      destruct (f x) as [t1 [v|er| |]].
-      + rewrite !bind_ok. rewrite truthy_eq. destruct (truthy_spec v).
-        * unfold ret at 1. unfold tapp at 1 2; simpl fst; simpl snd. rewrite app_nil_r. rewrite IH.
-          rewrite bind_ok, bind_tapp, !tapp_tapp.
-          f_equal. rewrite !bind_assoc. apply bind_ext. intros ys. rewrite bind_ret_l.
-          unfold ret. rewrite <- app_assoc. reflexivity.
-        * unfold ret at 1. unfold tapp at 1 2; simpl fst; simpl snd. rewrite app_nil_r. rewrite IH.
-          rewrite bind_ok, bind_tapp, !tapp_tapp.
-          f_equal. rewrite !bind_assoc. apply bind_ext. intros ys. rewrite bind_ret_l. reflexivity.
-      + rewrite bind_err. unfold tapp at 1 2; simpl fst; simpl snd. rewrite ffold_stuck by exact I. reflexivity.
-      + rewrite bind_panic. unfold tapp at 1 2; simpl fst; simpl snd. rewrite ffold_stuck by exact I. reflexivity.
-      + rewrite bind_fuel. unfold tapp at 1 2; simpl fst; simpl snd. rewrite ffold_stuck by exact I. reflexivity.
-  Qed.
-
-  Lemma filterM_ext (p q : value -> M bool) l : (forall x, p x = q x) -> filterM p l = filterM q l.
-  Proof. intros H. induction l as [|x r IH]; simpl; [reflexivity|]. rewrite H, IH. reflexivity. Qed.
 
   Theorem filter_is_spec d c e : filter_ parsed P E d [c; e] = filter_spec ev chk d c e.
   Proof.
-    unfold filter_, filter_spec. simpl idx. rewrite !bind_lift_ok.
+    unfold filter_, filter_spec. unfold idx; cbn [nth_error]; rewrite !bind_lift_ok.
     apply bind_ext. intros v. rewrite coll_same. apply bind_ext. intros xs.
-    apply (parsed_once e (fun f => do kept <- fold_left (fstep f) xs (ret []); ret (Arr kept))
-                         ).
-    - intros f g H.
-      assert (Hf : forall acc, fold_left (fstep f) xs acc = fold_left (fstep g) xs acc).
-      { induction xs as [|x r IH]; intros acc; simpl; [reflexivity|]. rewrite IH. f_equal.
-        unfold fstep. rewrite H. reflexivity. }
-      rewrite Hf. reflexivity.
+    transitivity (do p <- lift (P e); do kept <- foldlM (fstep (E p)) xs []; ret (Arr kept)).
+    { apply bind_ext. intros p. f_equal.
+      etransitivity; [exact (fold_left_bind (fstep (E p)) xs (ret [])) | apply bind_ret_l]. }
+    rewrite (parsed_once e (fun f => do kept <- foldlM (fstep f) xs []; ret (Arr kept))).
+    - apply bind_ext. intros _u. rewrite ffold, bind_assoc. apply bind_ext. intros ys. rewrite bind_ret_l. reflexivity.
+    - intros f g H. rewrite (foldlM_ext (fstep f) (fstep g)); [reflexivity|].
+      intros s0 x. unfold fstep. rewrite H. reflexivity.
   Qed.
 
-  (** the statement of filter_is_spec, with the fold replaced by filterM *)
-  Theorem filter_is_filterM d c e :
-    filter_ parsed P E d [c; e] =
-    (do cv <- ev c d; do xs <- lift (coll_spec cv); do _u <- lift (chk e);
-     do ys <- filterM (fun x => do v <- ev e x; ret (truthy_spec v)) xs; ret (Arr ys)).
-  Proof.
-    rewrite filter_is_spec. unfold filter_spec. reflexivity.
-  Qed.
-
-  (** reduce *)
+  (** ** reduce *)
   Lemma reduce_ctx_same cur acc : reduce_ctx cur acc = reduce_ctx_spec cur acc.
   Proof. reflexivity. Qed.
 
-  Lemma rfold_stuck (f : value -> value -> M value) xs t (o : outcome value) :
-    stuck o -> fold_left (fun acc cur => do a <- acc; f a cur) xs (t, o) = (t, o).
-  Proof.
-    revert t o. induction xs as [|x r IH]; intros t o H; simpl; [reflexivity|].
-    destruct o; simpl in *; try contradiction; apply IH; exact I.
-  Qed.
-
-  Lemma rfold (f : value -> value -> M value) xs t acc :
-    fold_left (fun a cur => do a' <- a; f a' cur) xs (t, Ok acc) = tapp t (foldM f xs acc).
-  Proof.
-    revert t acc. induction xs as [|x r IH]; intros t acc.
-    - simpl. unfold tapp; simpl. rewrite app_nil_r. reflexivity.
-    - cbn [fold_left foldM]. rewrite bind_ok.
-      destruct (f acc x) as [t1 [v|er| |]].
-      + unfold tapp at 1; simpl fst; simpl snd. rewrite IH. rewrite bind_ok, tapp_tapp. reflexivity.
-      + unfold tapp at 1; simpl fst; simpl snd. rewrite rfold_stuck by exact I. reflexivity.
-      + unfold tapp at 1; simpl fst; simpl snd. rewrite rfold_stuck by exact I. reflexivity.
-      + unfold tapp at 1; simpl fst; simpl snd. rewrite rfold_stuck by exact I. reflexivity.
-  Qed.
-
-  Lemma foldM_ext (f g : value -> value -> M value) l a : (forall x y, f x y = g x y) -> foldM f l a = foldM g l a.
-  Proof. intros H. revert a. induction l as [|x r IH]; intros a; simpl; [reflexivity|]. rewrite H. apply bind_ext. intros; apply IH. Qed.
+  Lemma foldM_foldlM (f : value -> value -> M value) xs a : foldM f xs a = foldlM f xs a.
+  Proof. revert a. induction xs as [|x r IH]; intros a; [reflexivity|]. cbn [foldM foldlM]. apply bind_ext. intros; apply IH. Qed.
 
   Theorem reduce_is_spec d c e i : reduce_ parsed P E d [c; e; i] = reduce_spec ev chk d c e i.
   Proof.
-    unfold reduce_, reduce_spec. simpl idx. rewrite !bind_lift_ok.
+    unfold reduce_, reduce_spec. unfold idx; cbn [nth_error]; rewrite !bind_lift_ok.
     apply bind_ext. intros v. apply bind_ext. intros init. rewrite coll_same. apply bind_ext. intros xs.
-    apply (parsed_once e (fun f => fold_left (fun acc cur => do a <- acc; f (reduce_ctx cur a)) xs (ret init))).
-    intros f g H.
-    assert (Hf : forall acc, fold_left (fun acc cur => do a <- acc; f (reduce_ctx cur a)) xs acc
-                           = fold_left (fun acc cur => do a <- acc; g (reduce_ctx cur a)) xs acc).
-    { induction xs as [|x r IH]; intros acc; simpl; [reflexivity|]. rewrite IH. f_equal.
-      apply bind_ext. intros a. apply H. }
-    apply Hf.
-  Qed.
-
-  Theorem reduce_is_foldM d c e i :
-    reduce_ parsed P E d [c; e; i] =
-    (do cv <- ev c d; do init <- ev i d; do xs <- lift (coll_spec cv); do _u <- lift (chk e);
-     foldM (fun acc x => ev e (reduce_ctx_spec x acc)) xs init).
-  Proof.
-    rewrite reduce_is_spec. unfold reduce_spec.
-    apply bind_ext; intros cv. apply bind_ext; intros init. apply bind_ext; intros xs.
-    apply bind_ext; intros _u.
-    change (ret init) with (([] : list value), Ok init).
-    rewrite (rfold (fun a cur => ev e (reduce_ctx_spec cur a)) xs [] init).
-    apply tapp_nil.
+    transitivity (do p <- lift (P e); foldlM (fun a cur => E p (reduce_ctx cur a)) xs init).
+    { apply bind_ext. intros p.
+      etransitivity; [exact (fold_left_bind (fun a cur => E p (reduce_ctx cur a)) xs (ret init)) | apply bind_ret_l]. }
+    rewrite (parsed_once e (fun f => foldlM (fun a cur => f (reduce_ctx cur a)) xs init)).
+    - apply bind_ext. intros _u. symmetry. apply foldM_foldlM.
+    - intros f g H. apply foldlM_ext. intros s0 x. apply H.
   Qed.
 
   (** ** all / some / none *)
-  Definition qstep (stop rule_text : bool) (data : value) (test : value -> M value) :=
-    fun (acc : M bool) (i : value) =>
-      do res <- acc;
-      if Bool.eqb res stop then ret stop
-      else do item <- (if rule_text then ev i data else ret i);
-           do pr <- test item; ret (truthy pr).
-
-  Lemma qfold_stuck stop rt d test xs t (o : outcome bool) :
-    stuck o -> fold_left (qstep stop rt d test) xs (t, o) = (t, o).
-  Proof.
-    revert t o. induction xs as [|x r IH]; intros t o H; simpl; [reflexivity|].
-    destruct o; simpl in *; try contradiction; apply IH; exact I.
-  Qed.
-
-  Lemma qfold_stopped stop rt d test xs t :
-    fold_left (qstep stop rt d test) xs (t, Ok stop) = (t, Ok stop).
-  Proof.
-    revert t. induction xs as [|x r IH]; intros t; simpl; [reflexivity|].
-    rewrite Bool.eqb_reflx. simpl. rewrite app_nil_r. apply IH.
-  Qed.
+  Definition qstep (stop rule_text : bool) (d : value) (test : value -> M value) (res : bool) (i : value) : M bool :=
+    if Bool.eqb res stop then ret stop
+    else do item <- (if rule_text then ev i d else ret i);
+         do pr <- test item; ret (truthy pr).
 
   Definition qtest (rt : bool) (d : value) (test : value -> M value) : value -> M bool :=
     fun i => do x <- (if rt then ev i d else ret i); do r <- test x; ret (truthy_spec r).
 
-  Lemma qfold_all rt d test xs t :
-    fold_left (qstep false rt d test) xs (t, Ok true) = tapp t (forallM (qtest rt d test) xs).
+  Lemma qfold_stopped stop rt d test xs : foldlM (qstep stop rt d test) xs stop = ret stop.
   Proof.
-    revert t. induction xs as [|x r IH]; intros t.
-    - simpl. unfold tapp; simpl. rewrite app_nil_r. reflexivity.
-    - cbn [fold_left forallM]. unfold qstep at 2. rewrite bind_ok. simpl Bool.eqb. cbv iota.
-      unfold qtest at 1.
-      destruct (if rt then ev x d else ret x) as [t1 [item|er| |]].
-      + rewrite !bind_ok. destruct (test item) as [t2 [pr|er| |]].
-        * rewrite !bind_ok. rewrite truthy_eq. unfold ret at 1 2. unfold tapp at 1 2 3 4 5; simpl fst; simpl snd.
-          rewrite !app_nil_r. destruct (truthy_spec pr).
-          -- rewrite IH. unfold tapp; simpl. rewrite !app_assoc. reflexivity.
-          -- rewrite qfold_stopped. unfold tapp; simpl. rewrite !app_nil_r, !app_assoc. reflexivity.
-        * rewrite !bind_err. unfold tapp at 1 2 3; simpl fst; simpl snd. rewrite qfold_stuck by exact I.
-          unfold tapp; simpl. rewrite app_assoc. reflexivity.
-        * rewrite !bind_panic. unfold tapp at 1 2 3; simpl fst; simpl snd. rewrite qfold_stuck by exact I.
-          unfold tapp; simpl. rewrite app_assoc. reflexivity.
-        * rewrite !bind_fuel. unfold tapp at 1 2 3; simpl fst; simpl snd. rewrite qfold_stuck by exact I.
-          unfold tapp; simpl. rewrite app_assoc. reflexivity.
-      + rewrite !bind_err. unfold tapp at 1; simpl fst; simpl snd. rewrite qfold_stuck by exact I. reflexivity.
-      + rewrite !bind_panic. unfold tapp at 1; simpl fst; simpl snd. rewrite qfold_stuck by exact I. reflexivity.
-      + rewrite !bind_fuel. unfold tapp at 1; simpl fst; simpl snd. rewrite qfold_stuck by exact I. reflexivity.
+    induction xs as [|x r IH]; [reflexivity|]. cbn [foldlM]. unfold qstep at 1.
+    rewrite Bool.eqb_reflx, bind_ret_l. exact IH.
   Qed.
 
-  Lemma qfold_some rt d test xs t :
-    fold_left (qstep true rt d test) xs (t, Ok false) = tapp t (existsM (qtest rt d test) xs).
+  Lemma qfold_all rt d test xs :
+    foldlM (qstep false rt d test) xs true = forallM (qtest rt d test) xs.
   Proof.
-    revert t. induction xs as [|x r IH]; intros t.
-    - simpl. unfold tapp; simpl. rewrite app_nil_r. reflexivity.
-    - cbn [fold_left existsM]. unfold qstep at 2. rewrite bind_ok. simpl Bool.eqb. cbv iota.
-      unfold qtest at 1.
-      destruct (if rt then ev x d else ret x) as [t1 [item|er| |]].
-      + rewrite !bind_ok. destruct (test item) as [t2 [pr|er| |]].
-        * rewrite !bind_ok. rewrite truthy_eq. unfold ret at 1 2. unfold tapp at 1 2 3 4 5; simpl fst; simpl snd.
-          rewrite !app_nil_r. destruct (truthy_spec pr).
-          -- rewrite qfold_stopped. unfold tapp; simpl. rewrite !app_nil_r, !app_assoc. reflexivity.
-          -- rewrite IH. unfold tapp; simpl. rewrite !app_assoc. reflexivity.
-        * rewrite !bind_err. unfold tapp at 1 2 3; simpl fst; simpl snd. rewrite qfold_stuck by exact I.
-          unfold tapp; simpl. rewrite app_assoc. reflexivity.
-        * rewrite !bind_panic. unfold tapp at 1 2 3; simpl fst; simpl snd. rewrite qfold_stuck by exact I.
-          unfold tapp; simpl. rewrite app_assoc. reflexivity.
-        * rewrite !bind_fuel. unfold tapp at 1 2 3; simpl fst; simpl snd. rewrite qfold_stuck by exact I.
-          unfold tapp; simpl. rewrite app_assoc. reflexivity.
-      + rewrite !bind_err. unfold tapp at 1; simpl fst; simpl snd. rewrite qfold_stuck by exact I. reflexivity.
-      + rewrite !bind_panic. unfold tapp at 1; simpl fst; simpl snd. rewrite qfold_stuck by exact I. reflexivity.
-      + rewrite !bind_fuel. unfold tapp at 1; simpl fst; simpl snd. rewrite qfold_stuck by exact I. reflexivity.
+    induction xs as [|x r IH]; [reflexivity|]. cbn [foldlM forallM]. unfold qstep at 1, qtest at 1.
+    cbn [Bool.eqb]. rewrite !bind_assoc. apply bind_ext. intros item. rewrite !bind_assoc. apply bind_ext. intros pr.
+    rewrite !bind_ret_l, truthy_eq. destruct (truthy_spec pr); [exact IH | apply qfold_stopped].
   Qed.
 
-  Lemma forallM_ext (p q : value -> M bool) l : (forall x, p x = q x) -> forallM p l = forallM q l.
-  Proof. intros H. induction l as [|x r IH]; simpl; [reflexivity|]. rewrite H, IH. reflexivity. Qed.
-  Lemma existsM_ext (p q : value -> M bool) l : (forall x, p x = q x) -> existsM p l = existsM q l.
-  Proof. intros H. induction l as [|x r IH]; simpl; [reflexivity|]. rewrite H, IH. reflexivity. Qed.
+  Lemma qfold_some rt d test xs :
+    foldlM (qstep true rt d test) xs false = existsM (qtest rt d test) xs.
+  Proof.
+    induction xs as [|x r IH]; [reflexivity|]. cbn [foldlM existsM]. unfold qstep at 1, qtest at 1.
+    cbn [Bool.eqb]. rewrite !bind_assoc. apply bind_ext. intros item. rewrite !bind_assoc. apply bind_ext. intros pr.
+    rewrite !bind_ret_l, truthy_eq. destruct (truthy_spec pr); [apply qfold_stopped | exact IH].
+  Qed.
 
-  (** the model's quantifier, once the collection has been normalised *)
-  Lemma quant_run_eq (is_all rt : bool) d pred items :
+  Lemma forallM_ext_in (p q : value -> M bool) l : (forall x, In x l -> p x = q x) -> forallM p l = forallM q l.
+  Proof.
+    induction l as [|x r IH]; intros H; [reflexivity|]. cbn [forallM]. rewrite (H x) by (left; reflexivity).
+    apply bind_ext. intros b. destruct b; [|reflexivity]. apply IH. intros y Hy. apply H. right; exact Hy.
+  Qed.
+  Lemma existsM_ext_in (p q : value -> M bool) l : (forall x, In x l -> p x = q x) -> existsM p l = existsM q l.
+  Proof.
+    induction l as [|x r IH]; intros H; [reflexivity|]. cbn [existsM]. rewrite (H x) by (left; reflexivity).
+    apply bind_ext. intros b. destruct b; [reflexivity|]. apply IH. intros y Hy. apply H. right; exact Hy.
+  Qed.
+
+  (** the model's loop over normalised items = the specification's quant_run *)
+  Lemma quant_loop (is_all rt : bool) d pred items (get : value -> M value) :
+    (forall i, In i items -> (if rt then ev i d else ret i) = get i) ->
     (match items with
      | [] => ret (Bool false)
      | _ => do predicate <- lift (P pred);
-            do result <- fold_left (qstep (negb is_all) rt d (E predicate)) items (ret is_all);
+            do result <- fold_left (fun acc i => do res <- acc; qstep (negb is_all) rt d (E predicate) res i) items (ret is_all);
             ret (Bool result)
-     end) =
-    quant_run ev chk is_all (fun i => if rt then ev i d else ret i) pred items.
+     end) = quant_run ev chk is_all get pred items.
   Proof.
-    unfold quant_run. destruct items as [|x r]; [reflexivity|].
-    set (xs := x :: r).
-    apply (parsed_once pred (fun f => do result <- fold_left (qstep (negb is_all) rt d f) xs (ret is_all); ret (Bool result))).
-    - intros f g H.
-      assert (Hf : forall acc, fold_left (qstep (negb is_all) rt d f) xs acc = fold_left (qstep (negb is_all) rt d g) xs acc).
-      { generalize xs. intros l. induction l as [|y l IH]; intros acc; simpl; [reflexivity|]. rewrite IH. f_equal.
-        unfold qstep. apply bind_ext. intros res. destruct (Bool.eqb res (negb is_all)); [reflexivity|].
-        apply bind_ext. intros item. rewrite H. reflexivity. }
-      rewrite Hf. reflexivity.
+    intros Hget. unfold quant_run. destruct items as [|x r]; [reflexivity|].
+    set (xs := x :: r) in *.
+    transitivity (do p <- lift (P pred); do result <- foldlM (qstep (negb is_all) rt d (E p)) xs is_all; ret (Bool result)).
+    { apply bind_ext. intros p. f_equal.
+      etransitivity; [exact (fold_left_bind (qstep (negb is_all) rt d (E p)) xs (ret is_all)) | apply bind_ret_l]. }
+    rewrite (parsed_once pred (fun f => do result <- foldlM (qstep (negb is_all) rt d f) xs is_all; ret (Bool result))).
+    - apply bind_ext. intros _u. f_equal. destruct is_all; cbn [negb].
+      + rewrite qfold_all. apply forallM_ext_in. intros i Hi. unfold qtest. rewrite (Hget i Hi). reflexivity.
+      + rewrite qfold_some. apply existsM_ext_in. intros i Hi. unfold qtest. rewrite (Hget i Hi). reflexivity.
+    - intros f g H. rewrite (foldlM_ext (qstep (negb is_all) rt d f) (qstep (negb is_all) rt d g)); [reflexivity|].
+      intros s0 i. unfold qstep. destruct (Bool.eqb s0 (negb is_all)); [reflexivity|].
+      apply bind_ext. intros item. rewrite H. reflexivity.
   Qed.
 
-  Lemma quant_run_fold (is_all rt : bool) d pred items :
-    quant_run ev chk is_all (fun i => if rt then ev i d else ret i) pred items =
-    match items with
-    | [] => ret (Bool false)
-    | _ => do _u <- lift (chk pred);
-           do b <- (if is_all then forallM (qtest rt d (fun x => ev pred x)) items
-                    else existsM (qtest rt d (fun x => ev pred x)) items);
-           ret (Bool b)
-    end.
-  Proof. unfold quant_run, qtest. destruct items; reflexivity. Qed.
+  (** A string literal's characters are handed to the evaluator like a literal array's elements;
+      every evaluator of interest returns a string literal as it is. *)
+  Hypothesis ev_str : forall s d, ev (Str s) d = ret (Str s).
 
   Theorem quant_is_spec (is_all : bool) d c p :
     quant parsed P E is_all (negb is_all) d [c; p] = quant_spec ev chk is_all d c p.
   Proof.
-    unfold quant, quant_spec, quant_items. simpl idx. rewrite !bind_lift_ok.
+    unfold quant, quant_spec, quant_items. unfold idx; cbn [nth_error]; rewrite !bind_lift_ok.
     destruct c as [|b|n|s|l|l].
-    - (* Null *)
-      rewrite bind_ret_l. rewrite bind_ret_l. simpl. reflexivity.
-    - rewrite bind_ret_l. rewrite bind_ret_l. reflexivity.
-    - rewrite bind_ret_l. rewrite bind_ret_l. reflexivity.
-    - (* a literal string: its characters, which are data *)
-      rewrite bind_ret_l. rewrite bind_ret_l. cbn [quant_coll]. rewrite !bind_lift_ok.
-      rewrite <- (quant_run_eq is_all false d p).
-      destruct (map (fun c0 => Str [c0]) s) eqn:Em; [reflexivity|].
-      apply bind_ext. intros predicate.
-      assert (Hq : forall acc l0, fold_left (fun acc0 i => do res <- acc0;
-                     if Bool.eqb res (negb is_all) then ret (negb is_all)
-                     else do item <- (if true then ev i d else ret i); do pr <- E predicate item; ret (truthy pr)) l0 acc =
-                   fold_left (qstep (negb is_all) true d (E predicate)) l0 acc) by reflexivity.
-      (* characters are strings: parsing a string gives... we do not know P; so the model really
-         evaluates them; hence rule_text = true there.  See below. *)
-      Abort.
+    - rewrite !bind_ret_l. reflexivity.
+    - rewrite !bind_ret_l. reflexivity.
+    - rewrite !bind_ret_l. reflexivity.
+    - rewrite !bind_ret_l. cbn [quant_coll]. rewrite !bind_lift_ok.
+      apply (quant_loop is_all true d p (map (fun c0 => Str [c0]) s) (fun i => ret i)).
+      intros i Hi. apply in_map_iff in Hi as [c0 [<- _]]. apply ev_str.
+    - rewrite !bind_ret_l. rewrite !bind_lift_ok.
+      apply (quant_loop is_all true d p l (fun i => ev i d)). intros; reflexivity.
+    - rewrite !bind_assoc. apply bind_ext. intros v. rewrite !bind_ret_l.
+      destruct v as [|b|n|s|l'|l']; cbn [quant_coll]; try reflexivity.
+      + rewrite !bind_lift_ok. apply (quant_loop is_all false d p _ (fun i => ret i)). intros; reflexivity.
+      + rewrite !bind_lift_ok. apply (quant_loop is_all false d p l' (fun i => ret i)). intros; reflexivity.
+  Qed.
+
+  Theorem all_is_spec d c p : all_ parsed P E d [c; p] = quant_spec ev chk true d c p.
+  Proof. apply (quant_is_spec true). Qed.
+
+  Theorem some_is_spec d c p : some_ parsed P E d [c; p] = quant_spec ev chk false d c p.
+  Proof. apply (quant_is_spec false). Qed.
+
+  Theorem none_is_spec d c p : none_ parsed P E d [c; p] = none_spec ev chk d c p.
+  Proof. unfold none_, none_spec. rewrite some_is_spec. reflexivity. Qed.
 End Arrays.
